@@ -19,6 +19,8 @@ Known == {"Reset", "Call", "Ret", "Durable", "Open", "Teardown", "Fault", "End",
           "RestartCheck", "Restore", "HarnessError", "ChildTimeout"}
 
 Empty == [scen |-> "", engine |-> "", srcs |-> {}, feats |-> {}, maxRetries |-> 0, minUs |-> 0,
+          winUs |-> 0,            \* recovery attempts are counted within this window (0 = the engine default, 5 s)
+          recTimes |-> <<>>,      \* times of the recovery restarts since the last user Start
           status |-> 0, statusT |-> 0, live |-> <<>>, stored |-> <<>>,
           startCalls |-> 0,       \* Start calls issued
           startOpen |-> FALSE,    \* a Start call is in flight
@@ -45,7 +47,15 @@ Reset ==
               !.feats = ToSet(Ev.features),
               !.maxRetries = IF "max_retries" \in DOMAIN Ev THEN Ev.max_retries ELSE 0,
               !.minUs = IF "min_delay_ms" \in DOMAIN Ev THEN Ev.min_delay_ms * 1000 ELSE 0,
+              !.winUs = IF "retries_window_ms" \in DOMAIN Ev /\ Ev.retries_window_ms > 0
+                          THEN Ev.retries_window_ms * 1000 ELSE 5000000,
               !.storeFaults = "store-fault" \in ToSet(Ev.features)]
+
+(* C10 "no more than the configured number of attempts within the configured window": the engine counts an
+   attempt from the moment it decides to restart until the window has elapsed.  Observed are the restarts'
+   source opens, which trail the decision by the back-off and the start-up: an earlier restart is counted as
+   surely inside the window only if it opened less than (window - 250 ms) ago (no false alarm from that lag). *)
+RecentRecoveries(t) == Cardinality({k \in DOMAIN st.recTimes : t - st.recTimes[k] < st.winUs - 250000})
 
 SrcLive == \E s \in st.srcs : Get(st.live, s) > 0
 
@@ -53,7 +63,8 @@ Call ==
   /\ IsEvent("Call")
   /\ st' = IF Ev.call = "Start"
              \* a user Start while a recovery restart is pending: the next open is the user's, not recovery's
-             THEN [st EXCEPT !.startCalls = @ + 1, !.startOpen = TRUE, !.sinceStart = Fresh, !.recPending = FALSE]
+             THEN [st EXCEPT !.startCalls = @ + 1, !.startOpen = TRUE, !.sinceStart = Fresh, !.recPending = FALSE,
+                             !.recTimes = <<>>]
            ELSE IF Ev.call = "StopAll" THEN [st EXCEPT !.sinceStart.stopAll = TRUE]
            ELSE IF Ev.call \in {"Stop", "StopAndWait", "ForceStop"}
              THEN [st EXCEPT !.sinceStart.force = @ \/ Ev.call = "ForceStop",
@@ -109,6 +120,7 @@ Open ==
                                 !.recPending = FALSE,
                                 !.sinceStart.opens = @ + 1,
                                 !.sinceStart.recOpens = IF recovery THEN @ + 1 ELSE @,
+                                !.recTimes = IF recovery THEN Append(@, Ev.t) ELSE @,
                                 !.sinceStart.recAfterForce = IF recovery /\ st.sinceStart.forceOk THEN @ + 1 ELSE @]
             /\ viol' = viol
                  \cup Add(Get(st.live, Ev.conn) = 0, "OneLiveRun", Ev.conn)
@@ -117,7 +129,7 @@ Open ==
                  \cup Add(st.startOpen \/ ~(st.status \in Stopped), "StoppedStaysStopped", Ev.conn)
                  \* C10: bounded number of recovery attempts, each after the back-off delay
                  \cup (IF recovery
-                         THEN Add(st.sinceStart.recOpens < st.maxRetries, "RecoveryBounded", st.sinceStart.recOpens + 1)
+                         THEN Add(RecentRecoveries(Ev.t) < st.maxRetries, "RecoveryBounded", RecentRecoveries(Ev.t) + 1)
                               \cup Add(Ev.t - st.statusT >= st.minUs, "BackoffLowerBound", Ev.t - st.statusT)
                               \cup Add(st.storeFaults \/ Ev.idx = Get(st.stored, Ev.conn), "RestartFromDurable",
                                        <<Ev.idx, Get(st.stored, Ev.conn)>>)
@@ -158,6 +170,11 @@ End ==
                THEN Add(Ev.status = "SystemStopped", "StoppedStaysStopped", Ev.status) ELSE {})
        \cup (IF "expect-recover" \in st.feats /\ ~st.restartCheck
                THEN Add(st.sinceStart.recOpens >= 1 \/ st.maxRetries = 0, "TransientRecovers", st.sinceStart.recOpens)
+               ELSE {})
+       \* failures further apart than the window are each a first attempt: all of them are recovered
+       \cup (IF "expect-recover-spaced" \in st.feats /\ ~st.restartCheck
+               THEN Add(Ev.status # "Degraded" /\ st.sinceStart.recOpens > st.maxRetries, "TransientRecovers",
+                        <<"failures outside the retry window were not all recovered", Ev.status, st.sinceStart.recOpens>>)
                ELSE {})
        \cup (IF "expect-exhausted" \in st.feats /\ ~st.restartCheck
                THEN Add(Ev.status = "Degraded", "TransientRecovers", <<"not degraded after exhausted retries", Ev.status>>)
